@@ -13,16 +13,16 @@ import (
 // the cause of the rejection is known.
 
 type C04Payload struct {
-	Mode      string             `json:"mode"` // plan | adversarial
-	Plan      *Plan              `json:"plan,omitempty"`
-	Fault     *ArgFault          `json:"fault,omitempty"`
-	Argv      []BStr             `json:"argv,omitempty"`
-	Argv0     []BStr             `json:"argv0,omitempty"` // adversarial mode: an earlier ParseArgs on the same parser
-	HasFirst  bool               `json:"has_first,omitempty"`
+	Mode     string    `json:"mode"` // plan | adversarial
+	Plan     *Plan     `json:"plan,omitempty"`
+	Fault    *ArgFault `json:"fault,omitempty"`
+	Argv     []BStr    `json:"argv,omitempty"`
+	Argv0    []BStr    `json:"argv0,omitempty"` // adversarial mode: an earlier ParseArgs on the same parser
+	HasFirst bool      `json:"has_first,omitempty"`
 	// LateHelp: the parser is built and used once WITHOUT HelpFlag; the flag is
 	// then switched on (Parser.Options is a public field) and the line with the
 	// help request is parsed by the same parser.
-	LateHelp bool `json:"late_help,omitempty"`
+	LateHelp  bool               `json:"late_help,omitempty"`
 	Fd1Faults []simrt.WriteFault `json:"fd1_faults,omitempty"`
 	Fd2Faults []simrt.WriteFault `json:"fd2_faults,omitempty"`
 	EmptyComp bool               `json:"empty_completion_env,omitempty"` // GO_FLAGS_COMPLETION="" must behave like unset
@@ -69,6 +69,14 @@ func oddify(r *Rng, d *DeclSpec) {
 			}
 		case o.Kind == "string" && r.Chance(1, 15):
 			o.NoUnquote = true
+		case (o.Kind == "int" || o.Kind == "uint" || o.Kind == "int64" || o.Kind == "*int") && r.Chance(1, 6):
+			// base tags the library accepts at declaration although they are useless
+			o.Base = []int{1, 40, -3, 37}[r.Intn(4)]
+			o.Default, o.OptionalValue, o.Optional = nil, nil, false
+			if o.Init == nil {
+				v := V{T: "7"}
+				o.Init = &v
+			}
 		case r.Chance(1, 25):
 			o.Desc = "ünïcödé désçrîptîön ✓ with a\nnewline and\ttab"
 		case r.Chance(1, 25) && o.Long != "":
